@@ -71,4 +71,25 @@ impl gmsol_model::Pool for Pool {
         }
         Ok(ans)
     }
+
+    fn checked_cancel_amounts(&self) -> gmsol_model::Result<Self>
+    where
+        Self::Signed: gmsol_model::num_traits::CheckedSub,
+    {
+        // Same as the program's `Pool`: the default implementation goes through signed deltas
+        // and fails for amounts above `i128::MAX`.
+        let mut ans = *self;
+        if self.is_pure() {
+            ans.long_token_amount &= 1;
+        } else {
+            let (long_amount, short_amount) = (ans.long_token_amount, ans.short_token_amount);
+            let leftover_amount = long_amount.abs_diff(short_amount);
+            (ans.long_token_amount, ans.short_token_amount) = if long_amount >= short_amount {
+                (leftover_amount, 0)
+            } else {
+                (0, leftover_amount)
+            };
+        }
+        Ok(ans)
+    }
 }
